@@ -135,6 +135,8 @@ var worldRegs = [][3]string{
 	// values; for unsigned types it changes only the codec identity (seen by cft).
 	{"MyInt", "", "flat64"}, {"MyInt", "z", "flat64"}, {"MyInt8", "", "flat8"}, {"MyI16", "", "flat16"}, {"MyI32", "w", "flat32"},
 	{"MyI64", "", "flat64"}, {"int32", "q", "flat32"}, {"int16", "", "flat16"}, {"int8", "", "flat8"},
+	// tag names are everything after the FIRST comma: they may contain commas themselves
+	{"MyInt", "z,flat", "flat64"}, {"int32", "a,b,c", "flat32"}, {"MyI64", ",", "flat64"},
 }
 
 func worldNT(name string) *TyDef {
@@ -212,6 +214,7 @@ func runC17(r *Runner, g *Gen, tier string) string {
 	for _, k := range []string{"struct", "map", "arr"} {
 		r.Do(L(A("latereg"), A(k)), true, "latereg")
 	}
+	r.Do(L(A("regintern")), true, "regintern")
 	n := scale(tier, 1200, 150000)
 	for i := 0; i < n; i++ {
 		items := []*Sexp{A("world")}
